@@ -287,6 +287,12 @@ Ltac norm_thr :=
   | _ => idtac
   end.
 
+Lemma cur_q_set_pc th p : cur_q (set_pc th p) = cur_q th. Proof. reflexivity. Qed.
+Lemma cur_tx_set_pc th p : cur_tx (set_pc th p) = cur_tx th. Proof. reflexivity. Qed.
+Lemma cur_evict_set_pc th p : cur_evict (set_pc th p) = cur_evict th. Proof. reflexivity. Qed.
+Lemma t_pc_set_pc th p : t_pc (set_pc th p) = p. Proof. reflexivity. Qed.
+Lemma t_pc_finish th r : t_pc (finish th r) = Idle. Proof. reflexivity. Qed.
+Global Hint Rewrite cur_q_set_pc cur_tx_set_pc cur_evict_set_pc t_pc_set_pc t_pc_finish : st.
 Ltac simpl_st := autorewrite with st in *.
 
 (* ---- counting goroutines ---- *)
